@@ -9,6 +9,7 @@ package checks
 
 import (
 	"fmt"
+	"os"
 	"sort"
 	"strings"
 	"time"
@@ -46,6 +47,9 @@ func (w *schedWorker) Describe(i int) string { return w.scenarios[i].Name }
 
 func (w *schedWorker) Item(idx int, emit func(vf.Violation), st sweep.Stats, sample func(string)) {
 	sc := w.scenarios[idx]
+	if os.Getenv("VERIF_RACE") == "1" {
+		sc.Race = true // exploratory: switch the race detector on for a check that does not claim it (C07, C12, C13)
+	}
 	want := append([]string{}, sc.Want...)
 	if !sc.Ordered {
 		sort.Strings(want)
